@@ -315,6 +315,59 @@ func TestFoxvcStandinMapModel(t *testing.T) {
 				report("observers seq=%v step=%d txn=%v: model holds %v (len %d), router reports %v (len %d)", seq[:i+1], i, inTxn, wantAll, len(model), all, n)
 				return
 			}
+			// the other iterators: Methods, Routes(pattern), Prefix(prefix)
+			{
+				it := f.Iter()
+				if inTxn {
+					it = txn.Iter()
+				}
+				wantM := map[string]bool{}
+				for mk := range model {
+					wantM[mk.m] = true
+				}
+				gotM := map[string]bool{}
+				for m := range it.Methods() {
+					gotM[m] = true
+				}
+				if fmt.Sprint(wantM) != fmt.Sprint(gotM) {
+					report("methods seq=%v step=%d txn=%v: model %v, router %v", seq[:i+1], i, inTxn, wantM, gotM)
+				}
+				for _, pat := range []string{"/a/{x}", "/a", "foo.{bar}/baz", "/zz"} {
+					var w, g []string
+					for mk := range model {
+						if mk.p == pat {
+							w = append(w, mk.m)
+						}
+					}
+					for m, r := range it.Routes(it.Methods(), pat) {
+						if r.Pattern() != pat {
+							report("routes seq=%v step=%d: Routes(%s) yielded %s", seq[:i+1], i, pat, r.Pattern())
+						}
+						g = append(g, m)
+					}
+					sort.Strings(w)
+					sort.Strings(g)
+					if strings.Join(w, ",") != strings.Join(g, ",") {
+						report("routes seq=%v step=%d txn=%v: Routes(%s): model %v, router %v", seq[:i+1], i, inTxn, pat, w, g)
+					}
+				}
+				for _, pre := range []string{"/a", "/a/", "foo.", "/"} {
+					var w, g []string
+					for mk := range model {
+						if strings.HasPrefix(mk.p, pre) {
+							w = append(w, mk.m+" "+mk.p)
+						}
+					}
+					for m, r := range it.Prefix(it.Methods(), pre) {
+						g = append(g, m+" "+r.Pattern())
+					}
+					sort.Strings(w)
+					sort.Strings(g)
+					if strings.Join(w, "|") != strings.Join(g, "|") {
+						report("prefix seq=%v step=%d txn=%v: Prefix(%s): model %v, router %v", seq[:i+1], i, inTxn, pre, w, g)
+					}
+				}
+			}
 			for mk, mr := range model {
 				var has bool
 				var r *Route
